@@ -1,6 +1,6 @@
 #!/bin/sh
-# regenerate Makefile from all .v files and build
-cd /verif/coq
+# developer helper: regenerate Makefile from all .v files (except Extract/) and build [targets]
+cd "$(dirname "$0")" || exit 2
 find theories -name '*.v' | grep -v Extract/ | sort > .vfiles
 coq_makefile -f _CoqProject $(cat .vfiles) -o Makefile >/dev/null
-timeout 1800 make -j8 "$@" 2>&1 | grep -v "WARNING conda"
+timeout 3000 make -j8 "$@" 2>&1 | grep -v "WARNING conda"
